@@ -234,3 +234,23 @@ package fstree
 //@ func (*FSTree).readObject
 //@   property C10
 //@   ensures [nothing_pre_read_is_lost] err == nil && res0 < preReadLen() ==> remainderKeptInFrontOfTheStream()
+
+// ---- C11 (streams made of a buffered prefix and a rest): skipping bytes that all lie in
+// the buffered prefix is answered from the prefix alone - the rest is not consulted, so a
+// rest that has nothing left (an object decoded in memory) cannot fail a skip inside the
+// prefix. (bytes.Reader: Len() is what is left; a forward seek from the current position
+// never fails - assumed.)
+//@ ghost pred prefixLeft() int
+//@ callrule c11_prefix_left in (*prefixedReadSeekCloser).Seek
+//@   property C11
+//@   callee (*bytes.Reader).Len
+//@   pureeffect
+//@   defines result == prefixLeft()
+//@ callrule c11_prefix_skip in (*prefixedReadSeekCloser).Seek
+//@   property C11
+//@   callee (*bytes.Reader).Seek
+//@   pureeffect
+//@   defines a0 >= 0 && a1 == 1 ==> err == nil
+//@ func (*prefixedReadSeekCloser).Seek
+//@   property C11
+//@   ensures [skip_inside_the_prefix_does_not_depend_on_the_rest] 0 <= offset && offset <= int64(prefixLeft()) ==> err == nil
